@@ -3,7 +3,7 @@ from .. import harness, monitors, games, analysis
 from ..oracle import OracleInconclusive
 
 
-SLOW_FIRST = ("G-VSLOW", "G-VSLOWR", "G-SLOW", "G-AUXFAST", "G-RNEAR", "G-NEARC")
+SLOW_FIRST = ("G-VSLOW", "G-VSLOWR", "G-SLOW", "G-AUXFAST", "G-RNEAR", "G-NEARC", "G-GAPLOOP")
 
 
 def plan_classes(tier, table, per_q=50, per_t=200, mult_t=12):
